@@ -8,7 +8,11 @@ with every accessible of the cluster):
 
   ["q", [kind, [i, j]]]      memoised type query  (kind: subclass sub maybe dist subs sups)
   ["edge", ["", [a, b]]]     `add_subclass_edge(super=a, sub=b)` between known classes  (a late graph update;
-                             the harness then calls `clear_generator_cache()` as `update_return_type` does)
+                             the harness then calls `clear_generator_cache()` as `update_return_type` does).  Kinds:
+                             random, shortcut beside an existing path (`class C(B, A)` with `class B(A)`), repeated,
+                             second parent, chain-then-shortcut; the class-level queries, `subtype_distance` on the end
+                             points / containers, tuples, unions built on them / an ancestor-descendant pair and a
+                             provider look-up for the super class are asked right before and right after
   ["gens", ["", [i, 0]]]     `_get_generators_for(pool[i])` on both providers (+ three `select_generator_for` picks)
   ["upd", [name, [i, 0]]]    a run-time return-type observation: the REAL `ModuleTestCluster.update_return_type(acc, pool[i])`
                              (what `ReturnTypeObserver` does after every execution) for the function `g3` / method
@@ -18,7 +22,9 @@ with every accessible of the cluster):
   ["add", [name, [0, 0]]]    a late `ModuleTestCluster.add_generator(acc)` (provider caches cleared by the harness)
 
 followed by `final`: every query of the history is asked again (served by the caches) and compared by the oracle
-with a recomputation on a brand-new `TypeSystem` holding the final graph.
+with a recomputation on a brand-new `TypeSystem` holding the final graph.  Every answer given ALONG the history is
+compared in the same way with a recomputation on the graph of that moment, and so is the subtype distance the
+heuristic provider stores with every generator it hands out.
 
 The Lean model (`Driver/C26.lean`) gets Python's own `__bases__` table (not pynguin's graph), every accessible's
 signature return type and fixed generated type, the sequence of `add` calls and the same history; it answers with
@@ -86,7 +92,8 @@ class C26(PropertyCheck):
     n_search = 150
     rule = ("one case = one generated module (3-9 classes over builtins, optional user generic, 5-10 annotated "
             "generators) analysed by generate_test_cluster + 10-16 requested types + a history of 40-90 memoised "
-            "type queries / provider queries / late add_subclass_edge calls / run-time return-type observations "
+            "type queries / provider queries / 0-5 late add_subclass_edge calls (random, shortcut, repeated, second "
+            "parent, chain-then-shortcut; distances and look-ups asked before and after) / run-time return-type observations "
             "(update_return_type on functions, methods, constructors) / late add_generator calls, then all queries "
             "asked again; "
             "non-trivial = distinct case with a non-Any request answered by >= 2 generators from >= 2 buckets and a "
@@ -192,32 +199,64 @@ class C26(PropertyCheck):
         edge_cands = user + ["builtins.object", "builtins.int", "builtins.str", "builtins.list", "builtins.float"]
         if generic:
             edge_cands.append(GENERIC)
-        edges = []
-        for _ in range(rng.choice([0, 1, 1, 2, 3])):
-            a, b = rng.choice(user), rng.choice(edge_cands)
-            if rng.random() < 0.3:
-                a, b = b, a
-            if a != b:
-                edges.append((a, b))
+        edges = self._gen_edges(rng, user, edge_cands, parents)
+
+        def inst(c):
+            return {"i": [c, ["A"] * ARITY[c] if c in ARITY else []]}
+
+        def pool_ix(t):
+            for k, x in enumerate(pool):
+                if x == t:
+                    return k
+            pool.append(t)
+            return len(pool) - 1
+
         edge_ix = {}
-        for a, b in edges:
+        for a, b, _kind, _rel in edges:
             for c in (a, b):
                 if c not in edge_ix:
-                    edge_ix[c] = len(pool)
-                    pool.append({"i": [c, ["A"] * ARITY[c] if c in ARITY else []]})
+                    edge_ix[c] = pool_ix(inst(c))
+        # the queries asked right before (memoised) and right after every late edge: the class-level queries, the
+        # type-level ones on the two end points, distances on containers / tuples / unions built on them and on
+        # relatives further up and down (a shortcut edge shortens those paths too), and a provider look-up for the
+        # super class (the rank provider stores the distance to every generator it hands out)
+        arounds = []
+        for a, b, _kind, (up, down) in edges:  # a = super, b = sub
+            base = [["q", ["subclass", [b, a]]], ["q", ["subs", [a, 0]]], ["q", ["sups", [b, 0]]],
+                    ["q", [rng.choice(["sub", "maybe"]), [edge_ix[b], edge_ix[a]]]]]
+            around = rng.sample(base, rng.randint(1, 4)) + [["q", ["dist", [edge_ix[a], edge_ix[b]]]]]
+            ia, ib = inst(a), inst(b)
+            shapes = [
+                lambda x, y: ({"i": ["builtins.list", [x]]}, {"i": ["builtins.list", [y]]}),
+                lambda x, y: ({"i": ["builtins.dict", [x, x]]}, {"i": ["builtins.dict", [y, y]]}),
+                lambda x, y: ({"i": ["builtins.set", [x]]}, {"i": ["builtins.set", [y]]}),
+                lambda x, y: ({"t": [False, [x, x]]}, {"t": [False, [y, y]]}),
+                lambda x, y: ({"u": [x, {"i": ["builtins.str", []]}]}, y),
+                lambda x, y: (x, {"u": [y, "N"]}),
+                lambda x, y: ({"i": ["builtins.list", [{"i": ["builtins.list", [x]]}]]},
+                              {"i": ["builtins.list", [{"i": ["builtins.list", [y]]}]]}),
+            ]
+            for shape in rng.sample(shapes, rng.choice([1, 1, 2, 3])):
+                x, y = shape(ia, ib)
+                around.append(["q", ["dist", [pool_ix(x), pool_ix(y)]]])
+            for x, y in ([(up, b)] if up else []) + ([(a, down)] if down else []) + (
+                    [(up, down)] if up and down else []):
+                around.append(["q", ["dist", [pool_ix(inst(x)), pool_ix(inst(y))]]])
+            if rng.random() < 0.8:
+                around.append(["gens", ["", [edge_ix[a], 0]]])
+            if up and rng.random() < 0.5:
+                around.append(["gens", ["", [pool_ix(inst(up)), 0]]])
+            arounds.append(around)
         n = len(pool)
         # history
         ops = []
         length = rng.randint(40, 90)
-        edge_at = dict(zip(sorted(rng.sample(range(8, length), len(edges))), edges))
+        edge_at = dict(zip(sorted(rng.sample(range(8, length), len(edges))), range(len(edges))))
         cls_pairs = [(a, b) for a in edge_cands for b in edge_cands]
         for k in range(length):
             if k in edge_at:
-                a, b = edge_at[k]  # super, sub
-                around = [["q", ["subclass", [b, a]]], ["q", ["subs", [a, 0]]], ["q", ["sups", [b, 0]]],
-                          ["q", [rng.choice(["sub", "maybe"]), [edge_ix[b], edge_ix[a]]]],
-                          ["q", ["dist", [edge_ix[a], edge_ix[b]]]]]
-                around = rng.sample(around, rng.randint(2, 5))
+                a, b, _kind, _rel = edges[edge_at[k]]  # super, sub
+                around = arounds[edge_at[k]]
                 # asked before the edge (memoised), then the edge, then asked again
                 ops += around + [["edge", ["", [a, b]]]] + around
                 continue
@@ -238,6 +277,80 @@ class C26(PropertyCheck):
             ops.append(o)
         ops = self._with_updates(rng, ops, specs, generic, rets, methods, pool, classes)
         return {"classes": specs, "generic": generic, "rets": rets, "methods": methods, "pool": pool, "ops": ops}
+
+    @staticmethod
+    def _gen_edges(rng, user, edge_cands, parents):
+        """Late `add_subclass_edge` calls as (super, sub, kind, (ancestor of super | None, descendant of sub | None)).
+        Kinds, decided on the generator's own view of the inheritance graph as it grows with the late edges:
+        `random` (any two classes, either direction: may connect, repeat, shortcut or close a cycle), `shortcut`
+        (sub already reachable from super over >= 2 edges: `class C(B, A)` with `class B(A)`), `repeat` (an edge
+        that exists), `join` (a second parent for a class: completes a diamond under `object`), `chain`
+        (x -> y, y -> z, then the shortcut x -> z, all late)."""
+        succ = {}
+        for c, ps in parents.items():
+            succ.setdefault(c, set())
+            for q in ps:
+                succ.setdefault(q, set()).add(c)
+        for c in edge_cands:
+            succ.setdefault(c, set())
+
+        def levels(a):
+            seen, frontier, out = {a}, [a], {a: 0}
+            d = 0
+            while frontier:
+                d += 1
+                nxt = []
+                for x in frontier:
+                    for y in sorted(succ.get(x, ())):
+                        if y not in seen:
+                            seen.add(y)
+                            out[y] = d
+                            nxt.append(y)
+                frontier = nxt
+            return out
+
+        edges = []
+
+        def put(a, b, kind):
+            if a == b:
+                return
+            ups = sorted(x for x in succ if x != a and x in edge_cands and a in levels(x))
+            downs = sorted(y for y in levels(b) if y != b and y in edge_cands)
+            edges.append((a, b, kind, (rng.choice(ups) if ups else None, rng.choice(downs) if downs else None)))
+            succ.setdefault(a, set()).add(b)
+
+        for _ in range(rng.choice([0, 1, 1, 2, 2, 3])):
+            kind = rng.choice(["random", "random", "shortcut", "shortcut", "shortcut", "repeat", "join", "chain"])
+            if kind == "shortcut":
+                pairs = [(a, c) for a in edge_cands for c, d in sorted(levels(a).items())
+                         if d >= 2 and c in edge_cands and (a in user or c in user)]
+                if pairs:
+                    put(*rng.choice(pairs), kind)
+                    continue
+                kind = "chain"
+            if kind == "repeat":
+                pairs = [(a, c) for a in edge_cands for c in sorted(succ[a]) if c in edge_cands]
+                if pairs:
+                    put(*rng.choice(pairs), kind)
+                    continue
+                kind = "random"
+            if kind == "join" and len(user) >= 2:
+                d, c = rng.sample(user, 2)
+                if c not in levels(d):  # no cycle
+                    put(c, d, kind)
+                    continue
+                kind = "random"
+            if kind == "chain" and len(user) >= 3:
+                x, y, z = rng.sample(user, 3)
+                put(x, y, kind)
+                put(y, z, kind)
+                put(x, z, kind)
+                continue
+            a, b = rng.choice(user), rng.choice(edge_cands)
+            if rng.random() < 0.3:
+                a, b = b, a
+            put(a, b, "random")
+        return edges[:5]
 
     def _with_updates(self, rng, ops, specs, generic, rets, methods, pool, classes):
         """Interleave run-time return-type observations (and a few late add_generator calls) with the history.  Every
@@ -572,9 +685,12 @@ class C26(PropertyCheck):
             else:
                 ops.append([op, [kind, [a, b]]])
         all_types = req + gens0 + sigs0
-        out, gens_aux, upd_aux = [], [], []
+        import networkx as nx
+
+        out, gens_aux, upd_aux, rec_now = [], [], [], []
         fresh = None
         n_edges = 0
+        last_q, before_shortcut = {}, {}
 
         def both(f):
             """Run `f` with the cluster's `generator_provider` pointed at each of the two providers in turn."""
@@ -587,7 +703,22 @@ class C26(PropertyCheck):
         for op, (kind, (a, b)) in ops:
             if op == "q":
                 out.append(self._query(ctx, ts, req, kind, a, b))
+                # the same query recomputed on a brand-new type system holding the graph of this moment
+                if fresh is None:
+                    fresh = self._fresh(ctx)
+                rec_now.append(self._query(ctx, fresh, req, kind, a, b))
+                key = (kind, a, b)
+                if kind == "dist" and key in before_shortcut and before_shortcut.pop(key) != out[-1]:
+                    self.count("shortcut-edge-changed-a-memoised-distance")
+                last_q[key] = out[-1]
             elif op == "edge":
+                try:
+                    d = nx.shortest_path_length(ts._graph, nodes[a], nodes[b])  # noqa: SLF001
+                except (nx.NetworkXNoPath, nx.NodeNotFound):
+                    d = None
+                self.count("late-edge:" + ("connects-unrelated" if d is None else "self" if d == 0 else
+                                           "repeated" if d == 1 else "shortcut"))
+                before_shortcut = dict(last_q) if d is not None and d >= 2 else {}
                 ts.add_subclass_edge(super_class=nodes[a], sub_class=nodes[b])
                 hp.clear_generator_cache()
                 rp.clear_generator_cache()
@@ -646,7 +777,22 @@ class C26(PropertyCheck):
                     if k not in maybe:
                         maybe[k] = self._call(fresh.is_maybe_subtype, S, T)
                         cov[k] = self._ref_cov(fresh, S, T)
+                # the distance the heuristic provider stores with every generator it hands out (rank, fitness) is an
+                # answer of the memoised `subtype_distance`: recomputed for the buckets the generator sits in
+                dnow = {}
+                if isinstance(h, list) and not isinstance(T, ctx["tsm"].AnyType):
+                    by_bucket = {}
+                    for i in sorted({x[0] for x in h}):
+                        ds = []
+                        for S, gens in hp.get_all().items():
+                            if accs[i] in gens:
+                                kS = jdump(self._unmk(ctx, S))
+                                if kS not in by_bucket:
+                                    by_bucket[kS] = self._call(fresh.subtype_distance, T, S)
+                                ds.append(by_bucket[kS])
+                        dnow[str(i)] = ds
                 gens_aux.append({"cur": cur, "maybe": maybe, "cov": cov, "picks_h": picks_h, "picks_r": picks_r,
+                                 "dnow": dnow,
                                  "prim": bool(T.accept(ctx["tsm"].is_primitive_type))})
         # ask everything again (served by the caches), then recompute on a brand-new type system with the final graph
         final_q, seen = [], set()
@@ -678,6 +824,7 @@ class C26(PropertyCheck):
                 "rets": [self._unmk(ctx, a.inferred_signature.return_type if c else g)
                          for a, c, g in zip(accs, callable_, gens0)],
                 "aux": {"table_r": table_r, "same_as_cluster": same_as_cluster, "recomputed": recomputed,
+                        "rec_now": rec_now,
                         "final_q": final_q, "gens": gens_aux, "upd": upd_aux, "table_end_r": tbl(rp), "ops": ops,
                         "pool": pool_ids, "n_req": n_req, "names": ctx["names"],
                         "build_queries": ctx["build_queries"], "prims": ctx["prims"]}}
@@ -780,6 +927,14 @@ class C26(PropertyCheck):
                     if isinstance(p, dict) or (p is None) != (not offered) or (p is not None and p not in offered):
                         fail({"clause": "sound", "provider": prov, "class": "picked-not-offered"},
                              f"{prov}.select_generator_for({show(T)}) returned {p}, offered set {sorted(offered)}", T=T)
+            # clause 3 for the look-up: the distance handed out with a generator is a cached `subtype_distance` answer
+            for i, d in o["h"]:
+                ds = ga.get("dnow", {}).get(str(i))
+                if ds is not None and d not in ds:
+                    fail({"clause": "cache", "class": "provider-distance"},
+                         f"requested {show(T)}: the heuristic provider hands out generator {i} (returning "
+                         f"{show(cur[i])}) with stored subtype distance {d}, a recomputation on the type graph of that "
+                         f"moment gives {ds}", T=T, gen=i, op=k)
             # clause 2: both providers offer the same set
             for i in sorted(hset ^ rset):
                 S = cur[i]
@@ -799,6 +954,22 @@ class C26(PropertyCheck):
                         kl = "other"
                 fail({"clause": "same-set", "class": kl},
                      f"requested {show(T)}: {who} offers generator {i} returning {show(S)}", T=T, S=S, gen=i)
+        # clause 3 along the history: every answer served equals a recomputation on the graph of that moment (the final
+        # graph of the history up to there)
+        q = 0
+        for k, (op, (kind, (a, b))) in enumerate(aux["ops"]):
+            if op != "q":
+                continue
+            rec = aux["rec_now"][q] if q < len(aux.get("rec_now", [])) else impl_out["out"][k]
+            q += 1
+            if impl_out["out"][k] != rec:
+                args = (f"{names[a]}, {names[b]}" if kind == "subclass" else names[a] if kind in ("subs", "sups")
+                        else f"{show(pool[a])}, {show(pool[b])}")
+                n_e = sum(1 for o in aux["ops"][:k] if o[0] == "edge")
+                fail({"clause": "cache", "class": kind},
+                     f"operation {k} of the history (after {n_e} late edges): the cached {kind}({args}) answers "
+                     f"{impl_out['out'][k]}, a recomputation on the type graph of that moment gives {rec}",
+                     kind=kind, a=a, b=b, op=k)
         # clause 3: cached answers agree with a recomputation on the final type graph
         for (kind, (a, b)), cached, rec in zip(aux["final_q"], impl_out["final"], aux["recomputed"]):
             if cached != rec:
